@@ -422,6 +422,8 @@ theorem execCore_vk : ∀ (o : Op) (m : M), VK m (execCore o m)
       split
       · exact raise_vk _ _ _
       · exact simpleFinish_vk (F := vitalFinish true m.masterName) (VK.of_eq (m := m) rfl (exec_vk body _)) (fin _ _) (fun _ => rfl) (fun _ _ => rfl)
+  | .spread n, m => by simp only [execCore]; exact Or.inl rfl
+  | .consume, m => by simp only [execCore]; exact Or.inl rfl
   | .verb v body, m => by
     simp only [execCore]
     cases hr : exec body { m with lastVerb := v } with
